@@ -103,6 +103,8 @@ def files_for(fmt, tier):
             out.append({"fmt": fmt, "cols": cols, "ragged": False, "encoding": "utf-8"})
             if t in ("T3", "T3f", "T5"):
                 out.append({"fmt": fmt, "cols": cols, "ragged": True, "encoding": "utf-8"})
+            if t in ("T3", "T4"):
+                out.append({"fmt": fmt, "cols": cols, "ragged": False, "permuted": True, "encoding": "utf-8"})
             if t == "T2":
                 out.append({"fmt": fmt, "cols": cols, "ragged": False, "encoding": "latin-1"})
         elif fmt == "parquet":
@@ -153,6 +155,8 @@ def records(f):
             if vals[i] is None and f.get("ragged"):
                 continue
             item[name] = vals[i]
+        if f.get("permuted") and i % 2 == 1:
+            item = dict(reversed(list(item.items())))  # same keys, listed in another order than in the first record
         out.append(item)
     return out
 
